@@ -41,6 +41,18 @@ def omittedNext : Slab → Nat
   | .mdata m => if m.extra.isNone ∧ m.next = SlabID.undef then 16 else 0
   | _ => 0
 
+/-- THE REAL ASSUMPTIONS about one translated slab (decidable, audit a4-A1 / a4-A2): the CBOR nesting
+    of the register stays within the validator's limit (`maxNestedLevels` = 32, the default of
+    `cbor.DecOptions`), and the shared inlined-extra-data section has at most 256 entries (the index
+    is one byte; Go's encoder refuses more) -/
+def Side : Slab → Prop
+  | .adata a => vneedISts a.elems + 1 ≤ maxNestedLevels ∧ (encSts a.elems []).2.length ≤ 256
+  | .mdata m => m.els.vneedI ≤ maxNestedLevels ∧ (encMEls m.els []).2.length ≤ 256
+  | _ => True
+
+instance (sl : Slab) : Decidable (Side sl) := by
+  cases sl <;> (simp only [Side]; infer_instance)
+
 /-- C07 for every slab kind of a world: `DecodeSlab (EncodeSlab sl) = sl`, exactly -/
 theorem decode_encode_all (sl : Slab) (ok : OKAll sl) (n : Nat) :
     ∃ k, decodeSlab sl.id (encodeSlab sl) n = .ok sl k := by
